@@ -19,7 +19,7 @@ RULE = ('case = (1..3 memories with random images, incl. one mapped near 2^32 an
         'per history. distinct_nontrivial = distinct (history hash, fault script, k, port-4 wire hash).')
 ASSUMPTIONS = ['device memory protocol as in the firmware: read reply <=24 data bytes, write 5-byte header',
                'duplicates are drained before a conflicting request is issued (a stale reply may legitimately carry old data)']
-REQUIRED = ['mon.tester_reads', 'mon.tester_writes', 'mon.tester_writes_crossing_a_256_byte_boundary_with_a_remainder', 'mon.tester_reads_over_a_corrupted_byte',
+REQUIRED = ['mon.writes_with_a_progress_callback', 'mon.empty_writes_with_a_progress_callback', 'mon.tester_reads', 'mon.tester_writes', 'mon.tester_writes_crossing_a_256_byte_boundary_with_a_remainder', 'mon.tester_reads_over_a_corrupted_byte',
             'mon.reads_completed', 'mon.writes_completed', 'mon.failed_notifications', 'mon.images_compared',
             'mon.chunk_requests', 'mon.probe_after_history', 'mon.link_drop_runs', 'mon.error_status_runs',
             'mon.requests_issued_while_no_link_is_open', 'mon.deck_memory_requests_issued_from_a_completion_callback',
@@ -157,7 +157,14 @@ def one_run(desc, k, calibrate=False):
                 ok = cf.mem.read(mem, op['addr'], op['len'])
                 res['issued'].append({'j': j, 'op': op, 'accepted': ok is not False, 'stamp': stamp})
             else:
-                ok = cf.mem.write(mem, op['addr'], bytes.fromhex(op['data']), flush_queue=op['flush'])
+                if (j + len(op['data'])) % 3 == 0:
+                    # the way a user interface writes: with a progress callback (message, percent)
+                    prog = []
+                    res.setdefault('progress', []).append((j, len(op['data']) // 2, prog))
+                    ok = cf.mem.write(mem, op['addr'], bytes.fromhex(op['data']), flush_queue=op['flush'],
+                                      progress_cb=lambda msg, pct, prog=prog: prog.append(pct))
+                else:
+                    ok = cf.mem.write(mem, op['addr'], bytes.fromhex(op['data']), flush_queue=op['flush'])
                 res['issued'].append({'j': j, 'op': op, 'accepted': ok is not False, 'stamp': stamp})
             if op['wait'] or fault in ('dup', 'dupdelay'):
                 settle(40.0)
@@ -392,6 +399,15 @@ def judge(desc, k, res, ctx, rp):
         if not okorder:
             V('mem:writes-reached-device-out-of-order-or-non-contiguous', {'mem': mid, 'device_sequence': dedup[:12],
                                                                          'submitted': want[:4]})
+    # ---- progress reports of writes: percentages never decrease, stay within 0..100, and a write that completed (no
+    # fault) ended on 100
+    for (j, ln, prog) in res.get('progress', []):
+        ctx.count('mon.writes_with_a_progress_callback')
+        if ln == 0:
+            ctx.count('mon.empty_writes_with_a_progress_callback')
+        if any(b < a_ for a_, b in zip(prog, prog[1:])) or any(not (0 <= x <= 100) for x in prog) or \
+                (fault == 'none' and prog and prog[-1] != 100):
+            V('mem:write-progress-reports-not-monotonic-within-0-100', {'length': ln, 'reports': prog[:12]})
     # ---- nothing left behind; further requests are served
     a = res['after']
     if a['lock']:
